@@ -737,7 +737,7 @@ def run(ck):
     ck.cov["partial"] = [
         "request sizes are not compared (layout-dependent), only count, order and role",
         "JSON, talloc, regcomp: theorem-backed (models of C03, C01/C19, C09 reused) but tied by the monitor only; fnmatch/wchar, tls_config, cx_sprintf: monitor only (no Lean model)",
-        "tls_config setters: no crash / no leak / error reported only (set_string frees the old value first)",
+        "tls_config setters: no crash / no leak / error reported, and after a failed setter every field is unchanged or cleanly unset (set_string frees the old value first, so 'previous value kept' is not claimed)",
     ]
 
 
